@@ -222,22 +222,47 @@ def doRun (a : Json) : Except String Json := do
       go ops obs.toList [] 0
   pure <| J.obj [("model", Json.arr outs.toArray), ("judge", Json.arr (judge.map Json.str).toArray)]
 
-/-- scripted AllowN calls on one limiter -/
+def ratAbs (x : Rat) : Rat := if x < 0 then -x else x
+
+/-- scripted `AllowN(now, n)` calls on one limiter. With `impl` (the real limiter's answers): a call whose
+    outcome hangs on less than 1/1000 token (`tokens − n` within ±1/1000: decided by float64 rounding and the
+    nanosecond truncation in x/time/rate, which the `Rat` model does not have) follows the implementation and
+    is reported as `tight`; the window judge runs on the implementation's grants at the TRUE time of each
+    call (the running maximum of the clock readings handed in: a reading may be stale, time is not). -/
 def doBucket (a : Json) : Except String Json := do
   let qps ← J.getInt a "qps"
   let burst ← J.getInt a "burst"
   if qps ≤ 0 then throw "qps must be positive (validation rejects other values; not modelled)"
   let calls ← (← J.getArr a "calls").toList.mapM fun c => do pure ((← J.getInt c "now"), (← J.getInt c "n"))
-  let (_, oks) := calls.foldl (fun (acc : Bucket × List Bool) (c : Int × Int) =>
-    let (b', ok) := allowN acc.1 c.1 c.2
-    (b', acc.2 ++ [ok])) (Bucket.init qps burst, [])
-  let judge ← match J.optObj a "impl" with
-    | none => pure Json.null
-    | some im => do
-      let ioks ← (← im.getArr?).toList.mapM (·.getBool?)
-      let events := (calls.zip ioks).map fun ((t, n), ok) => (t, if ok then n else 0)
-      pure (J.bool (windowsOk qps burst events))
-  pure <| J.obj [("ok", Json.arr (oks.map J.bool).toArray), ("windows", judge)]
+  let impl : Option (List Bool) ← match J.optObj a "impl" with
+    | none => pure none
+    | some im => do pure (some (← (← im.getArr?).toList.mapM (·.getBool?)))
+  let rec go (b : Bucket) (calls : List (Int × Int)) (impl : List Bool) (oks : List Bool) (tight : Nat) : List Bool × Nat :=
+    match calls with
+    | [] => (oks, tight)
+    | (now, n) :: rest =>
+      let (b', ok) := allowN b now n
+      let (last, tokens) := advance b now
+      let margin := tokens - (n : Rat)
+      match impl with
+      | iok :: irest =>
+        if iok ≠ ok ∧ n ≤ b.burst ∧ ratAbs margin < (1 : Rat) / 1000 then
+          -- follow the implementation on a knife edge
+          let b'' : Bucket := if iok then { b with last := some now, tokens := margin } else { b with last := last }
+          go b'' rest irest (oks ++ [iok]) (tight + 1)
+        else go b' rest irest (oks ++ [ok]) tight
+      | [] => go b' rest [] (oks ++ [ok]) tight
+  let (oks, tight) := go (Bucket.init qps burst) calls (impl.getD []) [] 0
+  let judge := match impl with
+    | none => Json.null
+    | some ioks =>
+      let (_, events) := (calls.zip ioks).foldl (fun (acc : Option Int × List (Int × Int)) (c : (Int × Int) × Bool) =>
+        let t := match acc.1 with
+          | none => c.1.1
+          | some m => if c.1.1 < m then m else c.1.1
+        (some t, acc.2 ++ [(t, if c.2 then c.1.2 else 0)])) (none, [])
+      J.bool (windowsOk qps burst ((1 : Rat) / 1000) events)
+  pure <| J.obj [("ok", Json.arr (oks.map J.bool).toArray), ("windows", judge), ("tight", J.nat tight)]
 
 /-- all interleavings of the threads' op lists (each a list of `(thread, op)`), fuel = total length -/
 def interleavings : Nat → List (List SOp) → List (List (Nat × SOp))
